@@ -19,6 +19,8 @@ os.environ.setdefault("OPENBLAS_NUM_THREADS", "1")
 os.environ.setdefault("MKL_NUM_THREADS", "1")
 os.environ.setdefault("MPLBACKEND", "Agg")
 os.environ.setdefault("PYTHONHASHSEED", "0")
+os.environ.setdefault("OMP_WAIT_POLICY", "passive")
+os.environ.setdefault("NUMEXPR_MAX_THREADS", "1")
 
 
 def main():
@@ -143,6 +145,12 @@ def run_parent(prop, tier, seed, nshards, clause_filter, scale):
         nshards = getattr(mod, "SHARDS", {}).get(tier, 4 if tier == "quick" else 16)
     known = harness.load_known(prop, getattr(mod, "MATCHERS", {}))
     clauses = {c.name: c for c in mod.CLAUSES}
+    if hasattr(mod, "prepare"):
+        try:
+            mod.prepare(tier)
+        except Exception as e:
+            sys.stderr.write("HARNESS-ERROR prepare: %s\n" % (str(e)[-3000:],))
+            return 2
 
     known_lines = []
     for k in known:
